@@ -29,7 +29,9 @@ def _instances(famname, pool, reduced):
     key = (famname, pool, reduced)
     if key not in _INST:
         fam = _FAM[famname]
-        inst = fam.instances(pool, REDUCED + ["ld", "st", "ldc", "ldcb"] if reduced else None)
+        # rmw reads and writes one memory location (store->load dependencies belong to C05/C06)
+        inst = fam.instances(pool, REDUCED + ["ld", "st", "ldc", "ldcb"] if reduced
+                             else [m for m in fam.mn if m != "rmw"])
         if not reduced:
             # 3-operand forms: third operand cycles instead of the full cube
             keep = []
